@@ -172,6 +172,11 @@ def call_cases(rng):
         chains = [ptn.OpChain([int(x) for x in rng.integers(0, 3, ln)], [0] * (ln + 1), float(rng.choice([1.0, 0.5, -2.0])), 0)
                   for ln in rng.integers(1, 4, int(rng.integers(1, 4)))]
         yield 'OpGraph.from_opchains', lambda c: ptn.OpGraph.from_opchains(c, 3, 0), [chains]
+        # repeated terms (equal values in distinct objects, and the same object listed again), full-length chains included
+        k = int(rng.integers(0, len(chains)))
+        rep = ptn.OpChain(list(chains[k].oids), list(chains[k].qnums), chains[k].coeff, chains[k].istart)
+        chains2 = chains + [rep] + ([chains[k]] if rng.random() < 0.5 else [])
+        yield 'OpGraph.from_opchains', lambda c: ptn.OpGraph.from_opchains(c, 3, 0), [chains2]
         yield 'OpGraph.as_matrix', lambda a: a.as_matrix({i: np.identity(2) * (i + 1) for i in range(-1, 12)}), [gA]
         yield 'MPO.from_opgraph', lambda a: ptn.MPO.from_opgraph([0, 0], a, {i: np.identity(2) * (i + 1) for i in range(-1, 12)}), [gA]
     except Exception:
